@@ -148,6 +148,22 @@ pub fn run(ctx: &mut Ctx) {
     let n = if ctx.thorough { 90000 } else { 15000 };
     let (tmax, limmax, pmax) = if ctx.thorough { (24, 120, 10) } else { (10, 50, 6) };
     let wd = ctx.watchdog_ms;
+    let wants = |k: usize| only.as_ref().map(|o| o.contains(&k)).unwrap_or(true);
+    if wants(2) {
+        // fixed inputs that reproduce the listed findings F15 and F9 on every run
+        let sup = json!({"k": "dedicated"});
+        let own = json!({"k": "rbf", "a": {"k": "periodic", "T": 7}, "c": {"k": "wxcurve", "of": {"k": "wcurve", "w": [3, 4]}}});
+        let others = json!({"k": "rbf", "a": {"k": "sum", "a": {"k": "sporadic", "T": 7, "J": 0},
+                            "b": {"k": "xcurve", "of": {"k": "curve", "d": [5, 10, 20, 30]}}}, "c": {"k": "multiframe", "cs": [2]}});
+        if let (Some(o1), Some(o2)) = (demand_rec(&own, 92, wd), demand_rec(&others, 92, wd)) {
+            ctx.call("ros2_pp", tagged(json!({"op": "ros2_pp", "supply": sup, "lim": 44, "own": o1, "others": o2})), call_ros2);
+        }
+        let acp = json!({"k": "rbf", "a": {"k": "acp", "h": 10, "steps": [[1, 1], [5, 2]]}, "c": {"k": "scalar", "c": 1}});
+        let oth = json!({"k": "rbf", "a": {"k": "periodic", "T": 9}, "c": {"k": "scalar", "c": 1}});
+        if let (Some(o1), Some(o2)) = (demand_rec(&acp, 64, wd), demand_rec(&oth, 64, wd)) {
+            ctx.call("ros2_pp", tagged(json!({"op": "ros2_pp", "supply": sup, "lim": 30, "own": o1, "others": o2})), call_ros2);
+        }
+    }
     for i in 0..n {
         if let Some(k) = &only {
             if !k.contains(&(i % 6)) {
